@@ -309,7 +309,7 @@ func cloneRequest(r *fosite.Request) fosite.Request {
 	o.RequestedAudience = cloneArgs(r.RequestedAudience)
 	o.GrantedAudience = cloneArgs(r.GrantedAudience)
 	o.Form = cloneForm(r.Form)
-	if r.Session != nil && !reflect.ValueOf(r.Session).IsNil() {
+	if !nilish(r.Session) {
 		o.Session = r.Session.Clone()
 	}
 	return o
@@ -1129,8 +1129,20 @@ func (s *IStore) TxIsOpen() bool {
 
 // ---- digest -----------------------------------------------------------------
 
+// nilish: a nil interface, or a nil pointer / map / slice inside one (a struct value is never nil).
+func nilish(v interface{}) bool {
+	if v == nil {
+		return true
+	}
+	switch rv := reflect.ValueOf(v); rv.Kind() {
+	case reflect.Ptr, reflect.Map, reflect.Slice, reflect.Interface, reflect.Func, reflect.Chan:
+		return rv.IsNil()
+	}
+	return false
+}
+
 func reqDigest(r fosite.Requester) string {
-	if r == nil || reflect.ValueOf(r).IsNil() {
+	if nilish(r) {
 		return "<nil>"
 	}
 	var b strings.Builder
@@ -1139,7 +1151,7 @@ func reqDigest(r fosite.Requester) string {
 		fmt.Fprintf(&b, " client=%s", c.GetID())
 	}
 	fmt.Fprintf(&b, " rs=%v gs=%v ra=%v ga=%v", []string(r.GetRequestedScopes()), []string(r.GetGrantedScopes()), []string(r.GetRequestedAudience()), []string(r.GetGrantedAudience()))
-	if s := r.GetSession(); s != nil && !reflect.ValueOf(s).IsNil() {
+	if s := r.GetSession(); !nilish(s) {
 		fmt.Fprintf(&b, " sub=%s", s.GetSubject())
 		for _, tt := range []fosite.TokenType{fosite.AccessToken, fosite.RefreshToken, fosite.AuthorizeCode, fosite.IDToken, fosite.PushedAuthorizeRequestContext, fosite.UserCode, fosite.DeviceCode} {
 			if e := s.GetExpiresAt(tt); !e.IsZero() {
@@ -1168,6 +1180,10 @@ func (s *IStore) Digest() string {
 		lines = append(lines, fmt.Sprintf("oidc %s %s", k, reqDigest(v)))
 	}
 	for k, v := range m.AccessTokens {
+		// a row the store itself no longer serves (a tombstone left by a revocation, say) is not an access token
+		if _, gerr := m.GetAccessTokenSession(context.Background(), k, nil); errors.Is(gerr, fosite.ErrNotFound) {
+			continue
+		}
 		lines = append(lines, fmt.Sprintf("at %s %s", k, reqDigest(v)))
 	}
 	for k, v := range m.RefreshTokens {
